@@ -361,6 +361,12 @@ def validate_traces(module: str, traces: list, *, cfg: str | None = None, header
         raise MachineryError(f"{module}: empty trace batch")
     shards = [traces[i : i + shard] for i in range(0, len(traces), shard)]
     par = min(len(shards), 4)
+    try:    # as many TLC processes side by side as their heaps fit into the memory that is free right now
+        avail = next(int(line.split()[1]) * 1024 for line in open("/proc/meminfo") if line.startswith("MemAvailable"))
+        hb = int(heap[:-1]) << (30 if heap.endswith("g") else 20)
+        par = max(1, min(par, int(0.7 * avail / hb)))
+    except Exception:
+        pass
     w = workers or max(1, NPROC // par)
     tmp = tempfile.mkdtemp(prefix="verif-tr-")
     stats = {"generated": 0, "distinct": 0, "shards": len(shards), "tlc_wall": 0.0}
@@ -464,8 +470,25 @@ def pmap(fn, items, procs: int = NPROC, chunk: int = 64, limit: float = 120.0):
     if len(items) < 2 * chunk or procs <= 1:
         return [g(x) for x in items]
     ctx = mp.get_context("fork")
-    with ctx.Pool(procs) as pool:
-        return pool.map(g, items, chunksize=chunk)
+    procs = _procs_for_memory(procs)
+    import gc
+    gc.freeze()          # forked workers share the parent's objects: keep the collector from touching (= copying) them
+    try:
+        with ctx.Pool(procs) as pool:
+            return pool.map(g, items, chunksize=chunk)
+    finally:
+        gc.unfreeze()
+
+
+def _procs_for_memory(procs):
+    """Fewer workers when the parent is large: every forked worker may end up with its own copy of the parent's heap
+    (reference counts are written on access), and the thorough tiers hold millions of jobs."""
+    try:
+        rss = int(open("/proc/self/statm").read().split()[1]) * os.sysconf("SC_PAGE_SIZE")
+        avail = next(int(line.split()[1]) * 1024 for line in open("/proc/meminfo") if line.startswith("MemAvailable"))
+    except Exception:
+        return procs
+    return max(2, min(procs, int(0.5 * avail / max(rss, 256 << 20))))
 
 
 # --------------------------------------------------------------------------------------------
